@@ -446,7 +446,7 @@ def border_walk_shape(fn):
             out["loop"], out["scan"], out["cur"] = lp, direction, it.args[0].id
             out["break"] = any(isinstance(x, ast.Break) for x in au.stmts(lp.body))
     if out["cur"]:
-        c0 = b.reaching(out["cur"], wl)
+        c0 = b.resolve(ast.Name(id=out["cur"], ctx=ast.Load()), at=wl, keep=(start,))
         if isinstance(c0, ast.Subscript) and isinstance(c0.value, ast.Call) and au.call_tail(c0.value) == "vertex_to_vertices" \
                 and len(c0.value.args) == 1 and is_name(c0.value.args[0], start):
             k = au.const(c0.slice)
